@@ -161,4 +161,33 @@ def replay(spec):
                     break
             if problems:
                 break
+    if not problems:
+        # a division RULE (volume threshold, species split perfectly) and a division EVENT (constant rate, species duplicated) in
+        # one model: each division must be partitioned by the splitter of whatever triggered it
+        from bioscrape.lineage import LineageModel, LineageVolumeSplitter
+        for seed in (1, 2, 3):
+            M = LineageModel(species=["X"], reactions=[([], ["X"], "massaction", {"k": 40.0})], initial_condition_dict={"X": 60})
+            M.create_volume_rule("ode", {"equation": "volume*0.5"})
+            vr = LineageVolumeSplitter(M, options={"default": "perfect", "volume": "perfect"}, partition_noise=0.0)
+            ve = LineageVolumeSplitter(M, options={"default": "duplicate", "volume": "perfect"}, partition_noise=0.0)
+            M.create_division_rule("volume", {"threshold": 2.0}, vr)
+            M.create_division_event("division", {}, "massaction", {"k": 0.6, "species": ""}, ve)
+            M.py_initialize()
+            py_seed_random(seed)
+            lin = py_SimulateCellLineage(np.arange(0, 4, 0.05), Model=M)
+            for i in range(lin.py_size()):
+                s_ = lin.py_get_schnitz(i)
+                d1, d2 = s_.py_get_daughters()
+                if d1 is None or d2 is None:
+                    continue
+                x_m, v_m = s_.py_get_data()[-1][0], s_.py_get_volume()[-1]
+                x1, x2 = d1.py_get_data()[0][0], d2.py_get_data()[0][0]
+                by_rule = v_m >= 2.0
+                ok = (x1 + x2 == x_m and abs(x1 - x2) <= 1) if by_rule else (x1 == x_m and x2 == x_m)
+                if not ok:
+                    problems.append("a division triggered by the %s (mother volume %.3f, X = %s) gave daughters X = %s / %s; that trigger's splitter %s"
+                                    % ("rule" if by_rule else "event", v_m, x_m, x1, x2, "halves X" if by_rule else "copies X to both"))
+                    break
+            if problems:
+                break
     return {"reproduced": bool(problems), "observed": problems[:3], "expected": "consistent lineage records"}
